@@ -2,6 +2,7 @@ package textwire
 
 import (
 	"strings"
+	"sync/atomic"
 
 	"github.com/textwire/textwire/v2/config"
 	"github.com/textwire/textwire/v2/ctx"
@@ -13,8 +14,10 @@ import (
 var userConfig = config.New("templates", ".tw.html", "", false)
 var customFunc = config.NewFunc()
 
-// usesTemplates is a flag to check if user uses Textwire templates or not
-var usesTemplates = false
+// usesTemplates is a flag to check if user uses Textwire templates or not.
+// It can be set while other goroutines render templates, so it is atomic,
+// and rendering a loaded template never reads it
+var usesTemplates atomic.Bool
 
 func NewTemplate(opt *config.Config) (*Template, error) {
 	Configure(opt)
@@ -34,8 +37,13 @@ func NewTemplate(opt *config.Config) (*Template, error) {
 }
 
 func EvaluateString(inp string, data map[string]any) (string, error) {
-	usesTemplates = false
+	usesTemplates.Store(false)
 
+	return evaluateString(inp, data)
+}
+
+// evaluateString evaluates the input without touching the usesTemplates flag
+func evaluateString(inp string, data map[string]any) (string, error) {
 	prog, errs := parseStr(inp)
 
 	if len(errs) != 0 {
@@ -60,7 +68,7 @@ func EvaluateString(inp string, data map[string]any) (string, error) {
 }
 
 func EvaluateFile(absPath string, data map[string]any) (string, error) {
-	usesTemplates = false
+	usesTemplates.Store(false)
 
 	content, err := fileContent(absPath)
 	if err != nil {
@@ -126,7 +134,7 @@ func RegisterBoolFunc(name string, fn config.BoolCustomFunc) error {
 }
 
 func Configure(opt *config.Config) {
-	usesTemplates = true
+	usesTemplates.Store(true)
 
 	if opt == nil {
 		return
